@@ -45,6 +45,16 @@ func c07Exec(rc *harness.RunCtx, sc *c04Scenario, params map[string]string) c07R
 		res = sc.run(rc2, adv)
 	})
 	res.log = adv.Log
+	sort.SliceStable(res.log, func(i, j int) bool {
+		a, b := res.log[i], res.log[j]
+		if a.CID != b.CID {
+			return a.CID < b.CID
+		}
+		if a.From != b.From {
+			return a.From < b.From
+		}
+		return a.To < b.To
+	})
 	if res.probes == nil {
 		res.probes = map[string]int{}
 	}
